@@ -10,6 +10,7 @@ tie             : translation validation of the extraction -- the REAL decorated
                   the same calls evaluate the law residual directly (specification predicate, test evidence)."""
 from __future__ import annotations
 
+import inspect
 import json
 import multiprocessing as mp
 import os
@@ -25,6 +26,8 @@ from vp import c02_extract as X
 from vp import c02_lemma as L
 from vp import c02_num as N
 from vp import c02_coq
+
+TP_KEY = "C02:core.geometry.line.two_point_function:float-precision"
 
 STATIC = ["quantity_is_si_value", "calc_result_unit_independent", "rounded_up_integer_spec", "rounded_up_integer_unique",
     "magnitude_of_solution", "vector_forms_mutual_inverse"]
@@ -92,10 +95,23 @@ def real_call(item, kwargs):
         return None, f"{type(e).__name__}: {str(e)[:120]}"
 
 
-def one_call(item, ex, specs, rng, lo, hi, small=False, plan=None):
+def one_call(item, ex, specs, rng, lo, hi, small=False, plan=None, exact=False):
     """Call the REAL function once.  -> dict(status=inadmissible|ok|tie-mismatch|residual-fail|uncovered-path, ...)."""
-    kwargs, env, desc = N.draw_call(ex, rng, lo, hi, small, plan)
-    rec = {"env": {str(k): v for k, v in env.items()}, "units": desc}
+    # cheap pre-screen with the closed form: redraw while it is undefined / non-real at the drawn point
+    complex_ok = any(sympy.sympify(c).has(sympy.I) for b_ in ex.branches for c in N._flatten(  # pylint: disable=protected-access
+        b_.result if b_.result_kind != "scalar" else [b_.result]) if isinstance(c, sympy.Basic))
+    for _try in range(25):
+        kwargs, env, desc = N.draw_call(ex, rng, lo, hi, small, plan, exact)
+        try:
+            bi0 = pick_branch(ex, env)
+            if bi0 is None:
+                continue
+            v0 = eval_branch(ex.branches[bi0], env)
+            if N.finite_real(v0) or (complex_ok and N.finite(v0)):
+                break
+        except Exception:  # pylint: disable=broad-except
+            continue
+    rec = {"env": {str(k): (v if isinstance(v, (float, int)) else str(v)) for k, v in env.items()}, "units": desc, "exact": exact}
     got, err = real_call(item, kwargs)
     if err is not None:
         rec.update(status="inadmissible", why=err)
@@ -123,7 +139,7 @@ def one_call(item, ex, specs, rng, lo, hi, small=False, plan=None):
     status = "ok" if N.close(got, want) else "tie-mismatch"
     verdicts = []
     for sp in specs:
-        if sp.branch != bi or (sp.law is None and sp.kind != "law-function"):
+        if sp.branch != bi or (sp.law is None and sp.kind != "law-function"):  # noqa
             continue
         try:
             verdict = L.spec_predicate(sp, env, got)
@@ -137,29 +153,36 @@ def one_call(item, ex, specs, rng, lo, hi, small=False, plan=None):
             status = "residual-fail"
             rec["lemma"] = sp.name
     if status != "ok":
-        # ill-conditioned point?  the REAL function is called again with every argument changed by a relative 1e-12;
-        # a discrepancy not larger than that response is round-off, not a disagreement
-        got2, err2 = real_call(item, N.perturb_kwargs(kwargs, rng))
-        delta = N._absdiff(got, got2) if err2 is None else float("inf")  # pylint: disable=protected-access
-        disc = N._absdiff(got, want)  # pylint: disable=protected-access
-        if status == "residual-fail":
-            for sp, v in verdicts:
-                if v[0] == "fail" and isinstance(v[1], dict) and "lhs" in v[1] and not isinstance(got, (list, tuple)):
-                    # translate the response of the result into a response of the residual
-                    try:
-                        v2 = L.spec_predicate(sp, env, got2) if err2 is None else None
-                        r1 = abs(complex(v[1]["lhs"]) - complex(v[1]["rhs"]))
-                        r2 = abs(complex(v2[1]["lhs"]) - complex(v2[1]["rhs"])) if v2 and isinstance(v2[1], dict) else float("inf")
-                        disc = r1
-                        delta = abs(r1 - r2) if r2 != float("inf") else float("inf")
-                    except Exception:  # pylint: disable=broad-except
-                        delta = float("inf")
-        kappa = N.cancellation(b.result if b.result_kind == "scalar" else 0, env) if b.result_kind == "scalar" else 1.0
-        rec["conditioning"] = {"discrepancy": disc, "response_to_1e-12": delta, "cancellation": kappa}
-        if disc <= 10 * delta or kappa > 1e6:
-            rec.update(status="inadmissible", why="ill-conditioned evaluation point (discrepancy below the real function's "
-                "response to a 1e-12 relative change of its arguments, or cancellation > 1e6 in the closed form)")
-            return rec
+        # ill-conditioned point?  the REAL function is called again with every argument changed by a relative eps;
+        # a discrepancy not larger than (10x) that response is round-off / limited internal precision, not a disagreement.
+        # eps = 1e-12: float round-off.  eps = 1e-9: SymPy's geometry (two_point_function) rationalises coordinates at
+        # about that resolution, see design note; such points are counted separately as `precision_limited`.
+        kappa = N.cancellation(b.result, env) if b.result_kind == "scalar" else 1.0
+        for eps, label in ((1e-12, "ill-conditioned"), (1e-9, "precision-limited")):
+            got2, err2 = real_call(item, N.perturb_kwargs(kwargs, rng, eps))
+            delta = N._absdiff(got, got2) if err2 is None else float("inf")  # pylint: disable=protected-access
+            disc = N._absdiff(got, want)  # pylint: disable=protected-access
+            try:    # the closed form's own response to the same perturbation (3 probes)
+                delta = max(delta, N.sensitivity(lambda e: eval_branch(b, e), env, rng, eps, 3))
+            except Exception:  # pylint: disable=broad-except
+                pass
+            if status == "residual-fail":
+                for sp, v in verdicts:
+                    if v[0] == "fail" and isinstance(v[1], dict) and "lhs" in v[1] and not isinstance(got, (list, tuple)):
+                        try:
+                            v2 = L.spec_predicate(sp, env, got2) if err2 is None else None
+                            r1 = abs(complex(v[1]["lhs"]) - complex(v[1]["rhs"]))
+                            r2 = abs(complex(v2[1]["lhs"]) - complex(v2[1]["rhs"])) if v2 and isinstance(v2[1], dict) else float("inf")
+                            disc = r1
+                            delta = max(delta, abs(r1 - r2)) if r2 != float("inf") else float("inf")
+                        except Exception:  # pylint: disable=broad-except
+                            delta = float("inf")
+            rec["conditioning"] = {"discrepancy": disc, f"response_to_{eps:g}": delta, "cancellation": kappa}
+            if disc <= 10 * delta or kappa > 1e6:
+                rec.update(status="inadmissible", kind=label, why=f"{label} evaluation point (discrepancy {disc:.3g} is below "
+                    f"10x the real function's response {delta:.3g} to a {eps:g} relative change of its arguments, or "
+                    f"cancellation {kappa:.3g} > 1e6 in the closed form)")
+                return rec
     rec["status"] = status
     return rec
 
@@ -193,7 +216,8 @@ def work(idx):
             return out
         specs, nol = build_lemmas(ex)
         out["lemmas"] = [{"name": s.name, "statement": s.statement, "proof": s.proof, "kind": s.kind,
-            "exception": s.exception, "y": s.y, "branch": s.branch, "F": str(s.F)[:400]} for s in specs]
+            "exception": s.exception, "y": s.y, "branch": s.branch, "F": str(s.F)[:400],
+            "sigma_conflicts": s.sigma_conflicts} for s in specs]
         out["no_obligation"] = nol
         # vector laws offered for several unknowns (once per module, attached to the module's first function)
         if item.key == min(it.key for it in _ITEMS if it.module is item.module):
@@ -206,6 +230,10 @@ def work(idx):
         rng = random.Random(f"{cfg['seed']}:{item.key}")
         calls, n_ok, attempts = [], 0, 0
         want = cfg["tuples"]
+        # functions built on core.geometry.line.two_point_function lose float precision inside SymPy's geometry
+        # (known finding, see design note): their decisive tie uses exact rational arguments
+        uses_tp = "two_point_function" in inspect.unwrap(item.fn).__code__.co_names
+        out["uses_two_point_function"] = uses_tp
         plan = N.leaf_plan(ex)
         unknown = [s for s, (d, how, _g) in plan.items() if d is None and how in ("quantity", "either")]
         cands = [None] + ([getattr(N.U, c) for c in N.CANDIDATE_DIMS] if unknown else [])
@@ -218,7 +246,7 @@ def work(idx):
             attempts_here = 0
             while n_ok < want and attempts_here < budget:
                 lo, hi = N.RANGES[min(attempts_here // max(want, 1), len(N.RANGES) - 1)]
-                r = one_call(item, ex, specs, rng, lo, hi, plan=plan)
+                r = one_call(item, ex, specs, rng, lo, hi, plan=plan, exact=uses_tp and (n_ok % 2 == 0))
                 attempts += 1
                 attempts_here += 1
                 if r["status"] == "inadmissible":
@@ -234,6 +262,7 @@ def work(idx):
         out["tie"] = {"admissible": n_ok, "attempts": attempts,
             "ok": sum(c["status"] == "ok" for c in calls),
             "bad": [c for c in calls if c["status"] != "ok"][:3],
+            "bad_exact": any(c.get("exact") for c in calls if c["status"] != "ok"),
             "sample": calls[0] if calls else None,
             "units": sorted({u for c in calls for us in c["units"].values() for u in us})}
     except Exception as e:  # pylint: disable=broad-except
@@ -307,6 +336,8 @@ def run(ctx):
     _CFG = {"seed": ctx.seed, "tuples": ctx.pick(3, 20)}
     ctx.log(f"catalogue: {len(items)} calculate_* functions in {nmods} modules ({time.time() - t0:.1f}s)")
 
+    n_corpus = run_corpus(ctx, items)
+    ctx.coverage["corpus_entries_replayed"] = n_corpus
     only = os.environ.get("C02_ONLY")
     idxs = [i for i, it in enumerate(items) if not only or only in it.key]
 
@@ -352,9 +383,9 @@ def run(ctx):
     proved = [n for n, v in res.items() if v == "ok"]
     ctx.obligations(len(claimed), len(proved))
 
-    # thorough: also attempt the allow-listed (unclaimed) lemmas, to report drift of the allowlist
+    # the allow-listed open lemmas are not attempted by a normal run (each costs the whole portfolio's timeouts)
     now_provable = []
-    if not ctx.quick and unclaimed and not os.environ.get("C02_SKIP_UNCLAIMED"):
+    if unclaimed and os.environ.get("C02_TRY_UNCLAIMED"):       # maintenance: which allow-listed goals close now?
         tri, dt = c02_coq.triage(ctx, "unclaimed", PREAMBLE, unclaimed, timeout=600)
         now_provable = sorted(n for n, (ok, _w) in tri.items() if ok)
         ctx.log(f"coq: {len(unclaimed)} allow-listed open lemmas re-attempted, {len(now_provable)} close now ({dt:.1f}s)")
@@ -380,6 +411,7 @@ def run(ctx):
     # ---- tie and specification predicate --------------------------------------------------------
     n_calls = n_tied = n_untied = 0
     untied = []
+    tp_items = []
     units_seen = set()
     for r in extracted:
         tie = r.get("tie") or {}
@@ -391,7 +423,19 @@ def run(ctx):
             continue
         if not tie.get("bad"):
             n_tied += 1
-        for c in tie.get("bad", []):
+        bad = tie.get("bad", [])
+        if r.get("uses_two_point_function") and bad and not tie.get("bad_exact"):
+            c = bad[0]
+            ctx.violation(TP_KEY,
+                "calculation functions built on core.geometry.line.two_point_function lose floating-point precision "
+                f"(first seen: {r['key']} returns {c.get('result_si')} where the law gives {c.get('closed_form_value')}); "
+                "with exact rational arguments the same function agrees with its law",
+                {"kind": "law-residual", "item": r["key"], "input": c.get("call"), "si_values": c["env"],
+                 "units": c["units"], "observed": c.get("result_si"), "closed_form_value": c.get("closed_form_value"),
+                 "residual": c.get("residual"), "theorem_or_tie": c.get("lemma", "numeric tie")}, found_input=True)
+            tp_items.append(r["key"])
+            continue
+        for c in bad:
             rep = {"kind": "tie" if c["status"] != "residual-fail" else "law-residual", "item": r["key"],
                 "input": c.get("call"), "si_values": c["env"], "units": c["units"], "observed": c.get("result_si"),
                 "closed_form_value": c.get("closed_form_value"), "residual": c.get("residual"),
@@ -434,6 +478,7 @@ def run(ctx):
     cov["allowlist_drift"] = {"unextracted_now_extractable": stale_unex, "open_lemmas_now_provable": now_provable}
     cov["numeric_tie"] = {"functions_tied": n_tied, "functions_untied": n_untied, "real_calls": n_calls,
         "tuples_per_function": _CFG["tuples"], "units_used": sorted(units_seen), "untied": untied[:40]}
+    cov["two_point_function_precision_findings"] = tp_items
     cov["exceptions"] = {lm["name"]: lm["exception"] for r in extracted for lm in r.get("lemmas", []) if lm["exception"]}
     cov["kinds"] = {}
     for r in extracted:
@@ -476,6 +521,86 @@ def run(ctx):
         ctx.log(f"allowlists written: {len(unex)} unextracted/untied, {len(unpr)} unproved/no-obligation")
 
 
+def evaluate_input(item, ex, specs, env_in):
+    """Run the REAL function on the recorded SI values (written in SI units) and evaluate tie + law residual strictly.
+    -> dict(error | got, want, tie_ok, verdicts, bad)"""
+    from symplyphysics import Quantity  # pylint: disable=import-outside-toplevel
+    from symplyphysics.core.dimensions import dimension_to_si_unit  # pylint: disable=import-outside-toplevel
+    from symplyphysics.core.vectors.vectors import QuantityVector  # pylint: disable=import-outside-toplevel
+    env, kwargs = {}, {}
+    plan = N.leaf_plan(ex)
+
+    def mk(v, arg):
+        if isinstance(v, X.SVec):
+            return QuantityVector([mk(c, arg) for c in v.components])
+        if isinstance(v, (list, tuple)):
+            t = [mk(x, arg) for x in v]
+            return tuple(t) if isinstance(v, tuple) else t
+        val = env_in[str(v)]
+        if isinstance(val, str):
+            val = sympy.sympify(val)
+        env[v] = val
+        dim, how, _g = plan[v]
+        if how == "int" or v.is_integer:
+            return int(val)
+        if how == "number" or (how == "either" and dim is None):
+            return val
+        if dim is None or N._dimless(dim):  # pylint: disable=protected-access
+            return Quantity(val)
+        return Quantity((sympy.Float(val) if isinstance(val, float) else val) * dimension_to_si_unit(dim), dimension=dim)
+
+    for a in ex.args:
+        kwargs[a.param] = mk(a.value, a)
+    got, err = real_call(item, kwargs)
+    out = {"si_values": {str(k): (v if isinstance(v, (int, float)) else str(v)) for k, v in env.items()}}
+    if err is not None:
+        out["error"] = err
+        return out
+    out["got"] = got
+    bi = pick_branch(ex, env)
+    bad = False
+    if bi is not None:
+        want = eval_branch(ex.branches[bi], env)
+        out["want"] = want
+        out["tie_ok"] = N.close(got, want)
+        bad |= not out["tie_ok"]
+    out["verdicts"] = []
+    for sp in specs:
+        if sp.branch == bi and (sp.law is not None or sp.kind == "law-function"):
+            try:
+                v = L.spec_predicate(sp, env, got)
+            except Exception as e:  # pylint: disable=broad-except
+                v = ("skipped", f"{type(e).__name__}: {e}")
+            out["verdicts"].append((sp.name, v))
+            bad |= v[0] == "fail"
+    out["bad"] = bad
+    return out
+
+
+def run_corpus(ctx, items):
+    """Committed corpus of past failing inputs (data/c02_corpus.json), replayed first and strictly."""
+    p = DATA / "c02_corpus.json"
+    if not p.exists():
+        return 0
+    entries = json.loads(p.read_text()).get("entries", [])
+    n = 0
+    for e in entries:
+        idx = next((i for i, it in enumerate(items) if it.key == e["item"]), None)
+        if idx is None:
+            continue
+        ex = X.extract(items[idx])
+        if ex.status != "ok":
+            continue
+        specs, _nol = build_lemmas(ex)
+        r = evaluate_input(items[idx], ex, specs, e["si_values"])
+        n += 1
+        if r.get("bad"):
+            ctx.violation(e["key"], e["what"], {"kind": "law-residual", "item": e["item"], "si_values": e["si_values"],
+                "observed": r.get("got"), "closed_form_value": r.get("want"), "residual": r.get("verdicts"),
+                "theorem_or_tie": "corpus entry (data/c02_corpus.json)"}, found_input=True)
+    return n
+
+
 def replay(ctx, rep):
     """Re-execute the recorded argument tuple on the real function and re-evaluate tie and law residual."""
     global _ITEMS, _CFG  # pylint: disable=global-statement
@@ -491,54 +616,21 @@ def replay(ctx, rep):
     print(f"replay: {key}: extraction status={ex.status} {ex.reason}")
     if ex.status != "ok":
         return 1
-    specs, nol = build_lemmas(ex)
+    specs, _nol = build_lemmas(ex)
     for s in specs:
         print(f"Lemma {s.name} : {s.statement}")
     env_in = rep.get("si_values")
     if not env_in:
         print("replay: no concrete input recorded (", rep.get("theorem_or_tie"), ")")
         return 1
-    # rebuild the call in SI units from the recorded SI values
-    env = {}
-    kwargs = {}
-    from symplyphysics import Quantity  # pylint: disable=import-outside-toplevel
-    from symplyphysics.core.dimensions import dimension_to_si_unit  # pylint: disable=import-outside-toplevel
-    from symplyphysics.core.vectors.vectors import QuantityVector  # pylint: disable=import-outside-toplevel
-
-    def mk(v, arg):
-        if isinstance(v, X.SVec):
-            return QuantityVector([mk(c, arg) for c in v.components])
-        if isinstance(v, (list, tuple)):
-            t = [mk(x, arg) for x in v]
-            return tuple(t) if isinstance(v, tuple) else t
-        val = env_in[str(v)]
-        env[v] = val
-        dim = v.dimension if getattr(v, "dimension", None) is not None else arg.dim
-        if v.is_integer:
-            return int(val)
-        if dim is None or ("Quantity" not in arg.annotation):
-            return val
-        return Quantity(sympy.Float(val) * dimension_to_si_unit(dim), dimension=dim)
-
-    for a in ex.args:
-        kwargs[a.param] = mk(a.value, a)
-    try:
-        res = item.fn(**kwargs)
-        got = N.result_si(res)
-    except Exception as e:  # pylint: disable=broad-except
-        print(f"replay: real function raised {type(e).__name__}: {e}")
+    r = evaluate_input(item, ex, specs, env_in)
+    print("replay: SI arguments:", r["si_values"])
+    if "error" in r:
+        print("replay: real function raised", r["error"])
         return 1
-    print("replay: SI arguments:", {str(k): v for k, v in env.items()})
-    print("replay: real function returned (SI):", got)
-    bi = pick_branch(ex, env)
-    bad = False
-    if bi is not None:
-        want = eval_branch(ex.branches[bi], env)
-        print("replay: extracted closed form gives:", want, "-> tie", "ok" if N.close(got, want) else "MISMATCH")
-        bad |= not N.close(got, want)
-    for sp in specs:
-        if sp.branch == bi and (sp.law is not None or sp.kind == "law-function"):
-            v = L.spec_predicate(sp, env, got)
-            print(f"replay: law residual ({sp.name}):", v)
-            bad |= v[0] == "fail"
-    return 1 if bad else 0
+    print("replay: real function returned (SI):", r["got"])
+    if "want" in r:
+        print("replay: extracted closed form gives:", r["want"], "-> tie", "ok" if r["tie_ok"] else "MISMATCH")
+    for name, v in r["verdicts"]:
+        print(f"replay: law residual ({name}):", v)
+    return 1 if r["bad"] else 0
